@@ -733,6 +733,21 @@ def run(ctx) -> None:
                "'amber-20.1/bin/sander:ref' is classified as a component of the consumer's stage (validation reports an unknown reference on a "
                "valid workflow) and a component called 'amber-20' as a direct path" % short(x, 50),
                construct="application_dependency_to_name: the extension is cut at the last dot")
+    # the separator a folder id may end with is taken off on EVERY path to the return: 'Gamess.application/' otherwise keeps its
+    # extension (splitext finds none after the '/') and never equals the first segment of a reference (seed C09-15)
+    acfg = CFG(adn)
+    strips = [n for n in acfg.nodes if n.ast is not None and n.kind in ("stmt", "test") and any(
+        isinstance(c, ast.Call) and ((last_attr(c) in ("rstrip", "strip") and c.args and isinstance(c.args[0], ast.Constant) and "/" in str(c.args[0].value))
+                                     or (call_name(c) or "").endswith("path.normpath")) for c in ast.walk(n.ast))]
+    rets = [n for n in acfg.nodes if n.kind == "stmt" and isinstance(n.ast, ast.Return)]
+    for rn in rets:
+        inline = any(isinstance(c, ast.Call) and (last_attr(c) in ("rstrip", "strip") or (call_name(c) or "").endswith("path.normpath")) for c in ast.walk(rn.ast))
+        ok_s = inline or (bool(strips) and acfg.every_path_to_passes(rn, gates=strips))
+        ctx.ob("C09.R10-application-name-drops-the-trailing-extension-only", rn.ast, ok_s,
+               "a trailing separator of the folder id is taken off on every path" if ok_s else
+               "application_dependency_to_name can reach its return without taking a trailing '/' off the id: the relative entry 'Gamess.application/' "
+               "is named 'gamess.application/' - no reference's first segment ever equals it, so 'gamess/bin/rungms:ref' is classified as the "
+               "component stage1.gamess", construct="application_dependency_to_name: trailing separator stripped on every path")
     if not left:
         ctx.ob("C09.R10-application-name-drops-the-trailing-extension-only", right[0], True,
                "the name of an application dependency is its folder name minus the trailing extension (%s)" % short(right[0], 50),
